@@ -11,7 +11,7 @@
 EXTENDS Integers, Sequences, FiniteSets, TLC
 P == INSTANCE PipeProps
 
-CONSTANTS Cfgs, QStep, MaxT, MaxCalls
+CONSTANTS Cfgs, QStep, KeepSched, MaxT, MaxCalls
 VARIABLES cfg, ch, g, env, obs, now, sched
 vars == <<cfg, ch, g, env, obs, now, sched>>
 View == <<cfg, ch, g, env, obs, now>>
@@ -71,7 +71,7 @@ Lib == (Gor \/ (\E o \in Outs : CRecvBuf(o) \/ CRecvClosed(o))) /\ UNCHANGED <<c
 
 Quiet == ~ENABLED Lib
 EnvOK == ~QStep \/ Quiet
-Log(c) == sched' = Append(sched, c)
+Log(c) == sched' = IF KeepSched THEN Append(sched, c) ELSE sched     \* the history variable is switched off for liveness checking
 Touch(o) == [o EXCEPT !.lastEnvAt = now]
 EnvRecv(o) == EnvOK /\ ~env.rp[o] /\ ~obs.seen[o] /\ env' = [env EXCEPT !.rp[o] = TRUE]
            /\ obs' = [Touch(obs) EXCEPT !.recvAt[o] = Append(@, now)]
